@@ -57,7 +57,13 @@ pub fn consistency(data: &[u8]) {
         ("C17", "wellformed"),
         ("C16", "bound_relation"),
     ];
-    let (prop, sub) = table[usize::from(data[0]) % table.len()];
+    // VERIF_FUZZ_ORACLE=<property id> pins the oracle (thorough tier of that property)
+    static PINNED: std::sync::OnceLock<Option<usize>> = std::sync::OnceLock::new();
+    let pinned = *PINNED.get_or_init(|| {
+        let want = std::env::var("VERIF_FUZZ_ORACLE").ok()?;
+        table.iter().position(|(p, _)| p.eq_ignore_ascii_case(&want))
+    });
+    let (prop, sub) = table[pinned.unwrap_or(usize::from(data[0]) % table.len())];
     let property = props::by_id(prop).expect("property");
     let check = property.subs.iter().find(|s| s.name == sub).expect("sub-check");
     let mut case = Case::default();
